@@ -46,16 +46,20 @@ DoClear  == Can /\ c' = ClearQ(c) /\ hist' = Append(hist, <<"clear">>)
 DoRefill == Can /\ \E c2 \in Refill(c) : c' = c2 /\ hist' = Append(hist, <<"refill">>)
 DoMaxG   == Can /\ \E o \in GetMaxG(c) : c' = o[2] /\ hist' = Append(hist, <<"maxg">>)
 DoMaxL   == Can /\ Dual /\ \E o \in GetMaxL(c) : c' = o[2] /\ hist' = Append(hist, <<"maxl">>)
-DoFind   == Can /\ \E x \in Xs : c' = c /\ hist' = Append(hist, <<"find", x>>)
+(* queries: every insertable coordinate, the two end coordinates, one below the first and one above the last item *)
+Queries == Xs \cup {X0, X1, "-1", "2"}
+DoFind   == Can /\ \E x \in Queries : c' = c /\ hist' = Append(hist, <<"find", x>>)
 
 Next == DoInsert \/ DoSetR \/ DoClear \/ DoRefill \/ DoMaxG \/ DoMaxL \/ DoFind
 Spec == Init /\ [][Next]_vars
 
 Structure == Sorted(c) /\ LinksOK(c) /\ CountOK(c) /\ BoundOK(c) /\ QueueItemsOK(c)
 (* Find returns the first item to the right of the query, in every reachable state *)
-FindOK == \A x \in Xs \cup {X0} : LET r == Find(c, x) IN
-            /\ r # NoItem /\ QLt(x, c.x[r])
-            /\ \A i \in InList(c) : QLt(x, c.x[i]) => QLeq(c.x[r], c.x[i])
+FindOK == \A x \in Queries : LET r == Find(c, x) IN
+            IF \E i \in InList(c) : QLt(x, c.x[i])
+            THEN /\ r # NoItem /\ QLt(x, c.x[r])
+                 /\ \A i \in InList(c) : QLt(x, c.x[i]) => QLeq(c.x[r], c.x[i])
+            ELSE r = NoItem
 (* a best-interval request never returns an item whose entry was not maximal: by construction of PopMax; *)
 (* what is checked here is that some outcome always exists (the lazy loop terminates)                    *)
 MaxDefined == GetMaxG(c) # {} /\ (Dual => GetMaxL(c) # {})
